@@ -1069,6 +1069,8 @@ func execProtInner(op string, a []string) string {
 		return renderFrag(fr, hintsOf(p))
 	case "prot.init", "prot.deinit":
 		return execProtInit(op, a)
+	case "prot.trex":
+		return execProtTrex(a) // c0607multi.go
 	}
 	return "bad-op"
 }
